@@ -11,6 +11,23 @@ COMMON_NOTE = ("Trusted base: Coq 8.16.1 kernel + vm_compute (no native_compute,
                "modelled, not verified. ")
 
 CLAIMED = {
+ "C18": dict(
+  text="Axiom-free theorems about a transition-system model of Submitter._main_loop/_catch_signal/_terminate/_save/_load (coq/model/Submitter.v: one step "
+       "per effect point, ghost event trace) over EVERY reachable state, i.e. any interleaving of loop steps, termination requests (at any point, any "
+       "number) and restarts, any job stream, queue lifetimes and max_jobs: at most max_jobs jobs outstanding; every job submitted at most once, finalised at "
+       "most once and only after submission, failed setups never submitted; conservation laws (each job of the stream is in exactly one place; a folder "
+       "exists iff a live job owns it) give: at quiescence every job that did not fail setup was submitted once and finalised once and no folder remains, "
+       "also across stop+resume with continuation (no loss, no duplication); after a stop without continuation the tables are empty, every submitted job "
+       "finalised, no folder left; with continuation everything outstanding is in the pickle. Tied to the code by exhaustive-in-small-scope "
+       "correspondence: the REAL Submitter is run in-process with the handler delivered at every executed line of submit.py and of every callback "
+       "(sys.settrace), optional second interruption, restart; its event log (reads of _running, next_job, mkdtemp, setup, rmtree, submit, check, finish, "
+       "kill, save) must equal the model's trace; independent monitors state the property on the log.",
+  note="Progress (that a quiescent state IS reached when lifetimes are finite) is not proved in Coq; it is observed on every run of the harness. Signal "
+       "delivery is modelled at line granularity; remote hosts, max_time and _spawn.py's crash handler are not modelled. The queue returning fresh ids "
+       "and mkdtemp fresh folders are environment assumptions. Two defects found by this check were repaired (fix: a043435 pickle mode, f140a01 "
+       "termination inside the handler).",
+  technique="Coq proof (invariants by induction over all interleavings of step/stop/restart, no axioms) of a hand model + exhaustive small-scope trace correspondence",
+  design="§8 C18"),
  "C07": dict(
   text="Axiom-free theorems about a hand model of AtomSelection (coq/model/Sel.v): for all operands given as arbitrary index lists, sum / difference / "
        "product have exactly the union / difference / intersection of the atom indices, duplicate-free and ascending; different compositions are "
